@@ -583,6 +583,17 @@ def cases_for(fn, t, size, tier):
     if size == 5 and tier == 'quick' and fn != 'mean':
         A = (A[0], A[2], A[3])                        # quick: three-point alphabet at size 5
     out = []
+    if size >= 10:
+        # long data (quantiles only): two order statistics far apart are selected by quickselect in ONE call; their bookkeeping
+        # must keep them in ascending order whatever the size (13 and 14 points: cut positions (4, 8) and (4, 9) for n = 3)
+        base_vals = list(range(-(size // 2), size - size // 2))
+        sets = [base_vals, base_vals[::-1], base_vals[1::2] + base_vals[0::2]]
+        for data in sets:
+            d = [enc(F(v)) if TYPES[t][0] != 'int' else enc(v) for v in data]
+            for n in (2, 3, 4):
+                for method in ('exclusive', 'inclusive'):
+                    out.append(dict(fn=fn, t=t, data=d, form='list', kw=dict(n=n, method=method)))
+        return out
     for data in itertools.product(A, repeat=size):
         d = [enc(v) for v in data]
         forms = ('list', 'tuple', 'iter') if size <= 2 else ('list',)
@@ -658,6 +669,8 @@ def groups(tier):
     for fn in (ORDER_FNS[:3] if tier == 'quick' else ORDER_FNS):
         for size in ((1, 2, 3) if tier == 'quick' else (1, 2, 3, 4)):
             gs.append(('single', fn, 'fxpf', size))
+    for size in (13, 14):
+        gs.append(('single', 'quantiles', 'int', size))
     for size in (2, 3):
         gs.append(('pair', 'covariance', 'int', size))
         for fn in FNS2:
